@@ -16,7 +16,13 @@ type Contract struct {
 	Line       int
 	Requires   []Clause
 	Ensures    []Clause
+	// EnsuresExcl: postconditions that hold when the caller holds the only reference to the receiver
+	// (no other thread can interfere between lock acquisitions). Proved in a second pass in which lock
+	// acquisition does not havoc the guarded state; used only at call sites where the receiver is an
+	// object allocated by the caller that has not escaped.
+	EnsuresExcl []Clause
 	LoopInv    map[int][]Clause
+	LoopInvExcl map[int][]Clause // invariants used only in the sequential (exclusive) pass
 	LoopDec    map[int]Clause
 	Decreases  *Clause
 	Modifies   []string // heap-map patterns the function may change ("*" = everything)
@@ -248,7 +254,7 @@ func ParseContracts(files map[string]string) (*Contracts, error) {
 			switch kw {
 			case "func", "iface":
 				key := rest
-				cur = &Contract{Key: key, File: fname, Line: ln + 1, LoopInv: map[int][]Clause{}, LoopDec: map[int]Clause{}, Flags: map[string]string{}}
+				cur = &Contract{Key: key, File: fname, Line: ln + 1, LoopInv: map[int][]Clause{}, LoopInvExcl: map[int][]Clause{}, LoopDec: map[int]Clause{}, Flags: map[string]string{}}
 				if kw == "iface" {
 					cur.Flags["iface"] = ""
 				}
@@ -362,7 +368,7 @@ func ParseContracts(files map[string]string) (*Contracts, error) {
 				cs.Guards = append(cs.Guards, g)
 				curGuard = g
 				cur = nil
-			case "requires", "ensures", "decreases", "invariant":
+			case "requires", "ensures", "ensures_exclusive", "decreases", "invariant":
 				cl, err := parseClause(rest)
 				if err != nil {
 					return nil, fail(err)
@@ -382,6 +388,8 @@ func ParseContracts(files map[string]string) (*Contracts, error) {
 					cur.Requires = append(cur.Requires, cl)
 				case "ensures":
 					cur.Ensures = append(cur.Ensures, cl)
+				case "ensures_exclusive":
+					cur.EnsuresExcl = append(cur.EnsuresExcl, cl)
 				case "decreases":
 					cur.Decreases = &cl
 				}
@@ -401,6 +409,8 @@ func ParseContracts(files map[string]string) (*Contracts, error) {
 				switch fields[2] {
 				case "invariant":
 					cur.LoopInv[n] = append(cur.LoopInv[n], cl)
+				case "invariant_exclusive":
+					cur.LoopInvExcl[n] = append(cur.LoopInvExcl[n], cl)
 				case "decreases":
 					cur.LoopDec[n] = cl
 				default:
